@@ -8,7 +8,9 @@ if ! git apply --check "$PATCH" 2>/dev/null; then
   if git apply --3way --check "$PATCH" 2>/dev/null; then :; else echo "PATCH DOES NOT APPLY: $PATCH"; exit 3; fi
 fi
 git apply "$PATCH" || git apply --3way "$PATCH" || exit 3
-trap 'git -C /repo checkout -- . ; git -C /repo reset -q' EXIT
+# evidence written while a seeded change is applied must not survive the test
+EVBAK=$(mktemp -d /tmp/evbak.XXXXXX); cp -a /verif/evidence/*.json "$EVBAK"/ 2>/dev/null
+trap 'git -C /repo checkout -- . ; git -C /repo reset -q; cp -a "$EVBAK"/*.json /verif/evidence/ 2>/dev/null; rm -rf "$EVBAK"' EXIT
 cd /verif
 for p in "$@"; do
   out=$(./check "$p" --tier quick 2>&1); rc=$?
